@@ -74,8 +74,12 @@ def _fix_samples(dump):
     def walk(ops, tid):
         for op in ops:
             if op.get('k') == 'one' and op.get('name') == 'PERF_THD_Data':
-                op['a'][0] = tm.get(tid, op['a'][0])
-                op['a'][1] = tid
+                if tid in tm:
+                    op['a'][0] = tm[tid]
+                    op['a'][1] = tid
+                else:
+                    # a thread the dump never declares stays undeclared: no sampler record may declare it either
+                    op['name'] = 'MACH_MKRUNNABLE'
             for key in ('in', 'ops'):
                 if key in op:
                     walk(op[key], tid)
@@ -161,6 +165,46 @@ def generate(rng, index, tier):
     if not any(h['op'] == 'request' and h['what'] != 'kevents' for h in hist):
         hist.append({'op': 'request', 'dump': 0, 'what': 'traces', 'repeat': True})
     return {'dumps': dumps, 'history': hist}
+
+
+def valid(scn):
+    """Premises the generator guarantees (ASSUMPTIONS) and minimisation must keep: every sampler thread-info record names
+    its own thread with the pid the thread map (or the in-stream announcement) gives it; an in-stream announced thread keeps
+    its announcement and is never combined with lost records; requests refer to existing dumps."""
+    try:
+        for h in scn['history']:
+            if h['op'] == 'request' and not 0 <= h['dump'] < len(scn['dumps']):
+                return False
+        for d in scn['dumps']:
+            tm = {t[0]: t[1] for t in d['writer'].get('tmap', [])}
+            if d.get('born'):
+                if d.get('faults'):
+                    return False
+                ops0 = d['threads'][0]['ops'] if d['threads'] else []
+                if not ops0 or ops0[0].get('k') != 'seq' or len(ops0[0]['ops']) != 2 or ops0[0]['ops'][0].get('a', [None])[0] != d['born'][0]:
+                    return False
+                if not any(th['tid'] == d['born'][0] for th in d['threads']):
+                    return False
+                tm[d['born'][0]] = d['born'][1]
+            bad = []
+
+            def walk(ops, tid):
+                for op in ops:
+                    if op.get('k') == 'one' and op.get('name') == 'PERF_THD_Data':
+                        if op['a'][1] != tid or tm.get(tid) != op['a'][0]:
+                            bad.append(op)
+                    if op.get('k') == 'one' and op.get('name') == 'TRACE_DATA_THREAD_TERMINATE_PID':
+                        bad.append(op)
+                    for key in ('in', 'ops'):
+                        if key in op:
+                            walk(op[key], tid)
+            for th in d['threads']:
+                walk(th['ops'], th['tid'])
+            if bad:
+                return False
+    except (KeyError, IndexError, TypeError):
+        return False
+    return True
 
 
 def _first(t):
